@@ -133,7 +133,7 @@ Proof.
     (unfold cadd at 1 in E; unfold wrap32 in E; rewrite (N.mod_small (len b)) in E by exact Hb;
      cbn [ts_data_len seg_push seg_ack ts_with_tcp seg_frag_off ts_with_ip flow_cl flow_sv seg_new] in E;
      destruct (0 + len b <? two32); cbn [obind] in E; try discriminate;
-     destruct (cadd two16 _ _ _); cbn [obind] in E; try discriminate;
+     cbn [obind] in E;
      ok_inv E; unfold sinfo; cbn; split; [reflexivity|rewrite N.add_0_l, N.add_0_r; reflexivity]).
 Qed.
 
